@@ -394,4 +394,20 @@ def brdNew (c : Config) (before : List Nat) (bid : Nat) (r : List Nat) : Option 
       some (writeAt before (n * sz) r)
     else none
 
+
+/-! ### the `multi` union of the article header (`fileheader_t.multi`, 4 bytes in this port)
+
+pttbbs keeps either `int money` or `int anon_uid` (the poster's usernum, 1-based, as it is) in the first four bytes,
+little-endian two's complement.  `SetMoney` / `SetAnonUID` write them, `Money` / `AnonUID` read them back. -/
+
+def toU32 (v : Int) : Nat := (v % 4294967296).toNat
+
+def toI32 (n : Nat) : Int := if n < 2147483648 then Int.ofNat n else Int.negSucc (4294967295 - n)
+
+/-- `SetMoney(v)` / `SetAnonUID(v)` on a union holding `pre`. -/
+def setMulti (pre : List Nat) (v : Int) : List Nat := le32 (toU32 v) ++ pre.drop 4
+
+/-- `Money()` / `AnonUID()`. -/
+def getMulti (m : List Nat) : Int := toI32 (unLe32 (m.take 4))
+
 end PttVerif.C01
